@@ -12,6 +12,7 @@ import (
 	"os/exec"
 	"path/filepath"
 	"regexp"
+	"runtime"
 	"strings"
 	"time"
 
@@ -409,7 +410,21 @@ func c02judge(c *Ctx, inputs, class map[string]string, res, res2 map[string]*bre
 		c.Count("timeouts_first_pass", int64(len(recheck)))
 		// re-confirm alone with a tripled limit (one worker per case so that they do not wait for each other)
 		saved := c.Workers
-		res3 := c.RunBatch(recheck, 90*time.Second)
+		// the verdict must not depend on how busy the machine is: the limit of the re-confirmation grows with the
+		// load average (a genuine hang still exceeds it, it only takes longer to say so)
+		limit := 90 * time.Second
+		if b, err := os.ReadFile("/proc/loadavg"); err == nil {
+			var l1 float64
+			fmt.Sscan(string(b), &l1)
+			if f := 2 * l1 / float64(runtime.NumCPU()); f > 1 {
+				if f > 7 {
+					f = 7
+				}
+				limit = time.Duration(float64(limit) * f)
+			}
+		}
+		c.Set("timeout_reconfirmation_limit_s", limit.Seconds())
+		res3 := c.RunBatch(recheck, limit)
 		c.Workers = saved
 		for _, cs := range recheck {
 			r := res3[cs.ID]
